@@ -69,10 +69,31 @@ LawsHold == ph = "start" \/ Law(cur)
 
 \* ---------------- Judge ------------------------------------------------------------------------
 Recs == ndJsonDeserialize(IOEnv.OBS_FILE)           \* [id, m, recv, args, out]
-\* named deviations: the engine's as-is behaviour for listed findings (DESIGN 2.3)
-\* Dev_CodePoints: the engine keeps strings as code-point sequences, so a receiver containing a
-\*   surrogate pair is one element shorter than its UTF-16 image.
-HasPair(u) == \E i \in 1..(Len(u) - 1) : u[i] >= 55296 /\ u[i] <= 56319 /\ u[i + 1] >= 56320 /\ u[i + 1] <= 57343
+\* Named deviations (DESIGN 2.3): the engine's as-is behaviour for the listed findings, modelled exactly.
+\* Dev_CodePoints : the engine keeps strings as sequences of code points, so a surrogate pair is ONE element.
+\*                  As-is = the reference applied to the code-point image of receiver and text arguments.
+\* Dev_ObjectArgNoToPrimitive : ToNumber / ToString of an object or array argument skip ToPrimitive:
+\*                  ToNumber(obj) = NaN, ToString(obj) = "[object Object]" (ES: [] -> "" -> 0).
+IsHi(c) == c >= 55296 /\ c <= 56319
+IsLo(c) == c >= 56320 /\ c <= 57343
+HasPair(u) == \E i \in 1..(Len(u) - 1) : IsHi(u[i]) /\ IsLo(u[i + 1])
+RECURSIVE ToCP(_)
+ToCP(u) == IF u = <<>> THEN <<>>
+           ELSE IF Len(u) >= 2 /\ IsHi(u[1]) /\ IsLo(u[2])
+                THEN <<65536 + (u[1] - 55296) * 1024 + (u[2] - 56320)>> \o ToCP(SubSeq(u, 3, Len(u)))
+                ELSE <<u[1]>> \o ToCP(Tail(u))
+FromCP(u) == Flatten([i \in 1..Len(u) |-> IF u[i] >= 65536
+                                          THEN <<55296 + ((u[i] - 65536) \div 1024), 56320 + ((u[i] - 65536) % 1024)>>
+                                          ELSE <<u[i]>>])
+IsObjArg(v) == v.k \in {"arr", "obj"}
+AsIsArg(m, a, i) == IF IsObjArg(a[i]) THEN (IF i \in IndexPos(m) THEN VNaN ELSE VStr(U("[object Object]")))
+                    ELSE IF a[i].k = "str" THEN VStr(ToCP(a[i].u)) ELSE a[i]
+AsIsRes(e) == IF e.o # "value" THEN e
+              ELSE CASE e.v.k = "str" -> RVal(VStr(FromCP(e.v.u)))
+                     [] e.v.k = "arr" -> RVal(VArr([i \in 1..Len(e.v.e) |-> VStr(FromCP(e.v.e[i].u))]))
+                     [] OTHER -> e
+AsIs(m, s, a) == AsIsRes(Expected(m, ToCP(s), [i \in 1..Len(a) |-> AsIsArg(m, a, i)]))
+
 OutMatches(act, exp) ==
   /\ act.o = exp.o
   /\ IF exp.o = "value" THEN SameVal(act.v, exp.v) ELSE act.cls = exp.cls
@@ -80,10 +101,12 @@ Verdict(r) ==
   LET s == r.recv.u
       exp == Expected(r.m, s, r.args)
       unchanged == r.out.o # "value" \/ SameVal(r.out.recv_after, r.recv)
+      pairs == HasPair(s) \/ (\E i \in 1..Len(r.args) : r.args[i].k = "str" /\ HasPair(r.args[i].u))
+      objs  == \E i \in 1..Len(r.args) : IsObjArg(r.args[i])
   IN IF ~Supported(r.m, s, r.args) THEN [v |-> "unsupported", dev |-> "", exp |-> exp]
      ELSE IF OutMatches(r.out, exp) /\ unchanged THEN [v |-> "pass", dev |-> "", exp |-> exp]
-     ELSE IF HasPair(s) \/ (\E i \in 1..Len(r.args) : r.args[i].k = "str" /\ HasPair(r.args[i].u))
-          THEN [v |-> "mismatch", dev |-> "Dev_CodePoints", exp |-> exp]
+     ELSE IF (pairs \/ objs) /\ unchanged /\ OutMatches(r.out, AsIs(r.m, s, r.args))
+          THEN [v |-> "mismatch", dev |-> (IF pairs THEN "Dev_CodePoints" ELSE "Dev_ObjectArgNoToPrimitive"), exp |-> exp]
      ELSE [v |-> "mismatch", dev |-> "", exp |-> exp]
 JudgeInit == /\ rec_i \in 1..Len(Recs) /\ ph = "judge" /\ cur = <<>>
              /\ LET r == Recs[rec_i]  v == Verdict(r)
